@@ -20,6 +20,9 @@ func New() core.Prop { return prop{} }
 
 func (prop) ID() string { return "C18" }
 
+// Finish removes the private directories the streams created.
+func (prop) Finish(*core.Session) { zooCleanup() }
+
 var pieces = []string{
 	"{", "}", "\\", "a", "b", "env.X", ".", " ", "{a}", "{b}", "{c}", "{unk}", "\\{", "\\}",
 	"{a{b}", "{}", "{{", "}}", "{e1}", "{a\\}", "\\\\", "{env.X}", "x", "{a}{b}", "\\{a}", "{a\\}b}",
@@ -84,6 +87,9 @@ func (prop) Generate(rng *core.Rand, tier string, emit func(string)) {
 	}
 	for c := 0; c < n/8; c++ {
 		genHTTP2(rng.Fork(), emit)
+	}
+	for c := 0; c < n/20; c++ {
+		genZoo(rng.Fork(), emit)
 	}
 	for c := 0; c < n; c++ {
 		var sb strings.Builder
@@ -209,6 +215,9 @@ func (prop) Run(line string) core.Outcome {
 	}
 	if len(f) == 8 && f[0] == "http" {
 		return runHTTP(line, f)
+	}
+	if len(f) == 4 && f[0] == "zoo" {
+		return runZoo(line, f)
 	}
 	if len(f) == 9 && f[0] == "http2" {
 		return runHTTP2(line, f)
